@@ -132,6 +132,9 @@ def replay(rec, case):
         return _r(rec, case)
     i = case["input"]
     st = state()
+    if i.get("origin") == "cross-method":
+        run_cross_sequence(rec, i["account"], [tuple(x) for x in i["sequence"]])
+        return
     global api
     plain_api = api
 
@@ -328,6 +331,38 @@ def shard_literals(arg):
     return rec
 
 
+def shard_cross_method(arg):
+    """The same account number judged by every method in one process, in a shuffled order (and again in the reverse order):
+    what one method worked out for these digits is no other method's business ('depends on nothing but the method and the
+    account number')."""
+    i, seed, tier = arg
+    import random
+    rng = random.Random(f"{seed}:C07:cross:{i}")
+    rec = Rec()
+    st = state()
+    for _ in range(12 if tier == "quick" else 400):
+        acct = f"{rng.randrange(10 ** rng.choice((10, 10, 10, 8, 6))):010d}"
+        order = list(st["impl"])
+        rng.shuffle(order)
+        seq = [(m, rng.choice(st["by_method"][m]) if (st["by_method"].get(m) and rng.random() < 0.3) else None) for m in order + order[::-1]]
+        run_cross_sequence(rec, acct, seq)
+    return rec
+
+
+def run_cross_sequence(rec, acct, seq):
+    sub = Rec()
+    for m, blz in seq:
+        want = check_method(sub, m, acct, blz)
+        sub.case("cross-method", (m, acct) if want is not None else None)
+    fails, sub.fails, sub.fail_counts = sub.fails, {}, type(sub.fail_counts)()
+    rec.merge(sub)
+    for key, case in fails.items():
+        # the witness is the whole sequence (the single call is right in a fresh process)
+        rec.fail(key + "|cross-method", case["relation"],
+                 {"origin": "cross-method", "account": acct, "sequence": [list(x) for x in seq], "failing_call": case["input"]},
+                 case["expected"], case["observed"])
+
+
 def run(ctx):
     import vlib.lib  # noqa: F401
     from ._shared import selftest_de
@@ -363,6 +398,7 @@ def run(ctx):
     ctx.pmap(shard_banks, [(codes[i:i + chunk], ctx.seed, ctx.tier) for i in range(0, len(codes), chunk)])
     ctx.pmap(shard_meta, [(m, ctx.seed, ctx.tier) for m in st["impl"]])
     ctx.pmap(shard_literals, [(ctx.seed, ctx.tier)])
+    ctx.pmap(shard_cross_method, [(i, ctx.seed, ctx.tier) for i in range(16)])
     need = []
     for m in st["impl"]:
         need.append(f"{m}-accept")
@@ -370,7 +406,7 @@ def run(ctx):
             need.append(f"{m}-reject")
     from ._configs import stage as _config_stage
     _config_stage(ctx, ['german'])
-    ctx.require_classes("bank-code-sibling-warmup", "source-literals-method", "source-literals-bank", "source-literals-pair", "sparse-accounts", "sibling-warmup", "argument-forms", "bank-implemented", "bank-unimplemented-method", "bank-unlisted", "metamorphic-pair", *need)
+    ctx.require_classes("cross-method", "bank-code-sibling-warmup", "source-literals-method", "source-literals-bank", "source-literals-pair", "sparse-accounts", "sibling-warmup", "argument-forms", "bank-implemented", "bank-unimplemented-method", "bank-unlisted", "metamorphic-pair", *need)
     ctx.extra["per_method"] = {m: {"accept": ctx.rec.classes.get(f"{m}-accept", 0), "reject": ctx.rec.classes.get(f"{m}-reject", 0),
                                    "undecided": ctx.rec.classes.get(f"{m}-undecided", 0)} for m in st["impl"]}
     ctx.extra["implemented_methods"] = len(st["impl"])
